@@ -415,7 +415,9 @@ func (g *Gen) applyContract(v ssa.Value, ct *Contract, key string, c *ssa.CallCo
 	for _, cl := range ct.Ensures {
 		env := g.envAt(st, pre, cpkg, vars)
 		t := env.compileBool(cl.Expr)
-		g.reportSpecErrors(env, cl)
+		if g.reportSpecErrors(env, cl) {
+			continue
+		}
 		g.assume(app("=>", reach, t.S))
 	}
 }
